@@ -192,6 +192,47 @@ def extract():
     return consts, missing
 
 
+def _handler_names(h):
+    t = h.type
+    if t is None:
+        return ['BaseException']
+    elts = t.elts if isinstance(t, ast.Tuple) else [t]
+    out = []
+    for e in elts:
+        if isinstance(e, ast.Name):
+            out.append(e.id)
+        elif isinstance(e, ast.Attribute):
+            out.append(e.attr)
+    return out
+
+
+def extract_handlers():
+    """exception classes caught around model construction and around the compute loop of main"""
+    res = dict(setupCaught=None, kernelCaught=None)
+    try:
+        tree = ast.parse(open(os.path.join(REPO, 'mininec/mininec.py')).read())
+    except Exception:
+        return res
+    mainf = _scope(tree, 'main')
+    if mainf is None:
+        return res
+    for n in ast.walk(mainf):
+        if isinstance(n, ast.Try):
+            calls = [c for b in n.body for c in ast.walk(b) if isinstance(c, ast.Call)]
+            names = []
+            for c in calls:
+                if isinstance(c.func, ast.Name):
+                    names.append(c.func.id)
+                elif isinstance(c.func, ast.Attribute):
+                    names.append(c.func.attr)
+            caught = [x for h in n.handlers for x in _handler_names(h)]
+            if 'Mininec' in names and res['setupCaught'] is None:
+                res['setupCaught'] = caught
+            if 'compute' in names and res['kernelCaught'] is None:
+                res['kernelCaught'] = caught
+    return res
+
+
 def render(consts, missing):
     L = []
     L.append('/-! GENERATED by harness/extract_constants.py from /repo — do not edit.')
@@ -216,6 +257,15 @@ def render(consts, missing):
         else:
             L.append('/-- NOT FOUND in the current source -/')
             L.append('def %s : RatLit := ⟨0, 1⟩' % name)
+        L.append('')
+    hd = extract_handlers()
+    for k in ('setupCaught', 'kernelCaught'):
+        v = hd[k]
+        if v is None:
+            missing.append(k)
+            v = []
+        L.append('/-- exception classes named in the `except` clause (main) -/')
+        L.append('def %s : List String := [%s]' % (k, ', '.join('"%s"' % x for x in v)))
         L.append('')
     L.append('def missing : List String := [%s]' % ', '.join('"%s"' % m for m in missing))
     L.append('')
